@@ -9,7 +9,13 @@
 (*   data - the carried payload: a tuple of abstract tokens (Nat).         *)
 (* A message is [tag, data].  Tokens stand for arbitrary payload values    *)
 (* (cookie, point, tip, header, version table, ...); the harness maps a    *)
-(* token to a concrete value injectively, per slot type.                   *)
+(* token to a concrete value injectively, per slot type.  Tokens also      *)
+(* stand for payload SIZES: every list-carrying payload (peers, tx ids,    *)
+(* tx bodies, points, version table, votes, tx list, bitmaps, block body)  *)
+(* is empty for token 1 and has 2, 3 elements for tokens 2, 3, requested   *)
+(* amounts / counts are 0, 2, 5 - the tables do not relate a reply to the  *)
+(* amount asked for: the next state carries the WHOLE received payload,    *)
+(* whether it is shorter than, as long as or longer than what was asked.   *)
 (*                                                                         *)
 (* Apply(p, s, m) succeeds exactly when the table has (s.cls, m.tag) and   *)
 (* yields the table's next class carrying the message payload; the slot    *)
